@@ -624,7 +624,7 @@ def gen_mapping_case(rng, im):
 def correspond_mappings(ctx):
   im = _impl()
   cases, lits = [], []
-  for _ in range(ctx.n(160, 6000)):
+  for _ in range(ctx.n(160, 4000)):
     try:
       case, lit, nontrivial, contains = gen_mapping_case(ctx.rng, im)
     except Unsupported as e:
@@ -1221,7 +1221,7 @@ def correspond_engine(ctx):
   im = _impl()
   tr_lits, tr_info, cell_lits, cell_info = [], [], [], []
   ctx._c13_failures = []
-  n_docs = ctx.n(10, 400)
+  n_docs = ctx.n(10, 250)
   for k in range(n_docs):
     sd = engine_seed(ctx, k)
     rng = random.Random(sd)
@@ -1280,7 +1280,7 @@ def correspond(ctx):
 def search(ctx):
   import random
   im = _impl()
-  n_docs = ctx.n(30, 1500)
+  n_docs = ctx.n(30, 1000)
   cells = [0, 0]
   def on_bundle(step, stats):
     for (i, key, exp, n_t) in stats:
